@@ -109,9 +109,15 @@ struct abs_record {
   int tat_calls;   /* calls of test_abs_term (loop checks) */
   bool tat_any;    /* some call returned non-zero */
   int pe_calls;
+  /* the last visit(T*): which overload, on which observation, with which visitor state */
+  int vis_n, vis_type, vis_indm;
+  const struct Observation *vis_obs;
+  const struct LocalPoint *vis_stan, *vis_cil;
+  const struct Vec *vis_b;
+  double vis_tol;
 } G;
 int gv_k0; /* ghost index 1..pocmer_ (forall-introduction) */
-struct Observation *gv_objs; /* the observations behind revised_obs_ (remove_huge_abs_terms check) */
+struct Observation *gv_m; /* the observation under test (test_abs_term check) */
 
 /* libm sqrt as a symbol */
 double abs_sqrt(double x)
@@ -143,6 +149,18 @@ struct Observation **gv_vec_at(struct ObsVector *v, int i)
   return &v->data[i];
 }
 #define gv_vec_begin(v) ((v)->data)
+/* `*m` for an iterator m of revised_obs_ (remove_huge_abs_terms check).  Stated structure precondition: entry k of
+   revised_obs_ points to observation k of the block gv_objs (distinct observations: revision_observations pushes each
+   active observation once).  It is instantiated at the range-checked position of m, and the object is then named
+   through the block (an anchor: cbmc cannot follow a pointer it read from a symbolic-size array). */
+struct Observation *gv_objs; /* the observations behind revised_obs_ */
+struct Observation *gv_iter_deref(struct ObsVector *v, struct Observation **m)
+{
+  __CPROVER_assert(SAME(m, v->data), "iterator points into revised_obs_");
+  long k = (OFF(m) - OFF(v->data)) / (long)sizeof(struct Observation *);
+  GV_INST(0 <= k && k < v->size && OFF(m) == OFF(v->data) + k * (long)sizeof(struct Observation *), *m == &gv_objs[k]);
+  return &gv_objs[k];
+}
 #define gv_vec_end(v) ((v)->data + (v)->size)
 
 /* constructor TestAbsTermVisitor(const Vec& bVector, double tolerance) : indm(0), stan(0), cil(0), b(bVector),
@@ -203,21 +221,36 @@ double gvs_test_abs_term(struct LocalNetwork *self, int indm)
   if (r != 0) G.tat_any = 1;
   return r;
 }
+#ifdef GV_EXCL_UNIT_WEIGHTS
+#define B_RAW_AFTER_PE 1 /* uncorrelated observations with stdDev == m0_apr: the homogenised right-hand side IS b */
+#else
+#define B_RAW_AFTER_PE 0
+#endif
 /* LocalNetwork::project_equations() as seen by remove_huge_abs_terms: the harness-built state IS the (arbitrary,
    well-formed) state after it; afterwards b is homogenised (prepareProjectEquations). */
 void gvs_project_equations(struct LocalNetwork *self)
 {
   self->tst_redbod_ = self->tst_redmer_ = self->tst_rov_opr_ = 1;
   self->vybocujici_abscl_ = P.pe_flag;
-#ifdef GV_EXCL_UNIT_WEIGHTS
-  G.b_raw = 1; /* uncorrelated observations with stdDev == m0_apr: the homogenised right-hand side IS b */
-#else
-  G.b_raw = 0;
-#endif
+  G.b_raw = B_RAW_AFTER_PE;
   G.pe_calls++;
 }
 
 /* ---- vocabulary ----------------------------------------------------------------------------------------------- */
+#define G_SQRT G.nsqrt, G.sqrt_arg
+#define G_CHK G.chk_n, G.chk_arg
+#define G_VIS G.vis_n, G.vis_type, G.vis_indm, G.vis_obs, G.vis_stan, G.vis_cil, G.vis_b, G.vis_tol
+/* ABS_VALUES=0 (check test_abs_term only): the floating-point clauses of the REPLACED contracts (visit, setFromTo) are
+   left out -- a sub-contract of the one proved with ABS_VALUES=1 in the checks visit_<T> / setFromTo; test_abs_term needs
+   only their structural clauses, and a SAT back end drowns in thirteen unused multiplier circuits */
+#ifndef ABS_VALUES
+#define ABS_VALUES 1
+#endif
+#if ABS_VALUES
+#define VALUES_ONLY(e) (e)
+#else
+#define VALUES_ONLY(e) 1
+#endif
 #define NUM(v) ((v) == (v)) /* not NaN */
 #define FIN(v, m) (-(m) <= (v) && (v) <= (m))
 #define CMAX 1e9
@@ -225,6 +258,7 @@ void gvs_project_equations(struct LocalNetwork *self)
 #define BMAX 1e300
 #define COORDS_OK(p) (FIN((p)->x_, CMAX) && FIN((p)->y_, CMAX) && FIN((p)->z_, CMAX))
 #define VALUE(o) ((o)->value_ + (o)->reduction_dh_) /* observed value reduced to the marks */
+#define OBS_FIN(o) (FIN((o)->value_, 1e12) && FIN((o)->reduction_dh_, 1e12))
 #define BI(v) ((v)->b->mem.rep[(v)->indm - 1])      /* b(indm) */
 
 #define K_CC2MM (2000.0 / M_PI)                              /* = 10*R2G */
@@ -232,6 +266,11 @@ void gvs_project_equations(struct LocalNetwork *self)
 #define LEN_MM(a, b) (__CPROVER_fabs((a) - (b)) * 1000)      /* |a - b| m -> mm */
 #define LEN_MM_R(a, b) LEN_MM(b, a)
 #define GV_MAXD(a, b) ((a) >= (b) ? (a) : (b))
+#ifdef GV_EXCL_NONZERO_TERM
+#define EXCL_ZERO(b, m, tol) (!((m) > (tol) && (b) == 0))
+#else
+#define EXCL_ZERO(b, m, tol) 1
+#endif
 #ifdef GV_EXCL_ANGLE_BS_ARM_LONGER
 #define EXCL_ANGLE(hor) (P.dfs <= (hor))
 #else
@@ -241,6 +280,7 @@ void gvs_project_equations(struct LocalNetwork *self)
 #define M_Distance(L, o, F, T, bi, hor, slo) L(VALUE(o), hor)
 #define M_Direction(L, o, F, T, bi, hor, slo) ANG_MM(bi, hor)
 #define M_Angle(L, o, F, T, bi, hor, slo) ANG_MM(bi, GV_MAXD(hor, P.dfs))
+#define IS_M_Angle(m, bi, hor) (((hor) >= P.dfs && MV_SAMEVAL(m, ANG_MM(bi, hor))) || (P.dfs > (hor) && MV_SAMEVAL(m, ANG_MM(bi, P.dfs)))) /* the same, arm by arm */
 #define M_H_Diff(L, o, F, T, bi, hor, slo) L(VALUE(o), (T)->z_ - (F)->z_)
 #define M_S_Distance(L, o, F, T, bi, hor, slo) L(VALUE(o), slo)
 #define M_Z_Angle(L, o, F, T, bi, hor, slo) ANG_MM(bi, slo)
@@ -253,16 +293,6 @@ void gvs_project_equations(struct LocalNetwork *self)
 #define M_Azimuth(L, o, F, T, bi, hor, slo) ANG_MM(bi, hor)
 #define IS_M(m, Ty, o, F, T, bi, hor, slo) \
   (MV_SAMEVAL(m, M_##Ty(LEN_MM, o, F, T, bi, hor, slo)) || MV_SAMEVAL(m, M_##Ty(LEN_MM_R, o, F, T, bi, hor, slo)))
-#define M_GT(tol, Ty, o, F, T, bi, hor, slo) \
-  (M_##Ty(LEN_MM, o, F, T, bi, hor, slo) > (tol) || M_##Ty(LEN_MM_R, o, F, T, bi, hor, slo) > (tol))
-/* ... selected by the dynamic type */
-#define BY_TYPE(ty, FN_, ...)                                                                                     \
-  ((ty) == T_Distance ? FN_(__VA_ARGS__, Distance) : (ty) == T_Direction ? FN_(__VA_ARGS__, Direction) : (ty) == T_Angle ? FN_(__VA_ARGS__, Angle) \
-   : (ty) == T_H_Diff ? FN_(__VA_ARGS__, H_Diff) : (ty) == T_S_Distance ? FN_(__VA_ARGS__, S_Distance) : (ty) == T_Z_Angle ? FN_(__VA_ARGS__, Z_Angle) \
-   : (ty) == T_X ? FN_(__VA_ARGS__, X) : (ty) == T_Y ? FN_(__VA_ARGS__, Y) : (ty) == T_Z ? FN_(__VA_ARGS__, Z) : (ty) == T_Xdiff ? FN_(__VA_ARGS__, Xdiff) \
-   : (ty) == T_Ydiff ? FN_(__VA_ARGS__, Ydiff) : (ty) == T_Zdiff ? FN_(__VA_ARGS__, Zdiff) : FN_(__VA_ARGS__, Azimuth))
-#define TA_IS_M(m, Ty) IS_M(m, Ty, TA_M, TA_F, TA_T, TA_B, P.sqrt_ret[0], P.sqrt_ret[1])
-#define TA_M_GT(tol, Ty) M_GT(tol, Ty, TA_M, TA_F, TA_T, TA_B, P.sqrt_ret[0], P.sqrt_ret[1])
 #define USES_D0(ty) ((ty) == T_Distance || (ty) == T_Direction || (ty) == T_Angle || (ty) == T_S_Distance || (ty) == T_Z_Angle || (ty) == T_Azimuth)
 #define USES_SLOPE(ty) ((ty) == T_S_Distance || (ty) == T_Z_Angle)
 #define ONE_POINT(ty) ((ty) == T_X || (ty) == T_Y || (ty) == T_Z)
@@ -287,16 +317,35 @@ void gvs_project_equations(struct LocalNetwork *self)
 #define VIS_SHAPE1(v, o)                                                                                    \
   (TAV_SHAPE(v) && __CPROVER_r_ok((v)->stan, sizeof(struct LocalPoint)) && __CPROVER_r_ok((v)->cil, sizeof(struct LocalPoint)) && \
    __CPROVER_r_ok((o), sizeof(struct Observation)) && !SAME((v), (v)->stan) && !SAME((v), (v)->cil) && !SAME((v), (o)) && \
-   NUM((v)->tol_abs_) && FIN(BI(v), BMAX) && FIN(VALUE(o), 1e12) && COORDS_OK((v)->stan) && G.chk_n == 0 && (G.nsqrt == 0 || G.nsqrt == 1))
+   NUM((v)->tol_abs_) && FIN(BI(v), BMAX) && OBS_FIN(o) && COORDS_OK((v)->stan) && G.chk_n == 0 && G.vis_n == 0 && (G.nsqrt == 0 || G.nsqrt == 1))
 #define VIS_SHAPE2(v, o) (VIS_SHAPE1(v, o) && COORDS_OK((v)->cil))
 /* d0 is the horizontal distance of the CURRENT pair (set by setFromTo when both points have xy) */
 #define D0_CUR(v) (G.d0_from == (v)->stan && G.d0_to == (v)->cil && 0 <= (v)->d0 && (v)->d0 <= DMAX)
+#define VIS_REC_STMT(Ty) do { G.vis_n++; G.vis_type = T_##Ty; G.vis_indm = self->indm; G.vis_obs = obs; G.vis_stan = self->stan; \
+                              G.vis_cil = self->cil; G.vis_b = self->b; G.vis_tol = self->tol_abs_; } while (0) /* ghost record */
+#define VIS_REC(Ty)                                                                                          \
+  (G.vis_n == __CPROVER_old(G.vis_n) + 1 && G.vis_type == T_##Ty && G.vis_indm == self->indm && G.vis_obs == obs &&      \
+   G.vis_stan == self->stan && G.vis_cil == self->cil && G.vis_b == self->b && MV_SAMEVAL(G.vis_tol, self->tol_abs_))
+#define VIS_IS_M_(Ty) IS_M(G.chk_arg, Ty, obs, self->stan, self->cil, BI(self), self->d0, P.sqrt_ret[1])
+#define VIS_IS_M_Distance VIS_IS_M_(Distance)
+#define VIS_IS_M_Direction VIS_IS_M_(Direction)
+#define VIS_IS_M_Angle IS_M_Angle(G.chk_arg, BI(self), self->d0)
+#define VIS_IS_M_H_Diff VIS_IS_M_(H_Diff)
+#define VIS_IS_M_S_Distance VIS_IS_M_(S_Distance)
+#define VIS_IS_M_Z_Angle VIS_IS_M_(Z_Angle)
+#define VIS_IS_M_X VIS_IS_M_(X)
+#define VIS_IS_M_Y VIS_IS_M_(Y)
+#define VIS_IS_M_Z VIS_IS_M_(Z)
+#define VIS_IS_M_Xdiff VIS_IS_M_(Xdiff)
+#define VIS_IS_M_Ydiff VIS_IS_M_(Ydiff)
+#define VIS_IS_M_Zdiff VIS_IS_M_(Zdiff)
+#define VIS_IS_M_Azimuth VIS_IS_M_(Azimuth)
 #define VIS_POST(Ty)                                                                                          \
   __CPROVER_ensures(G.chk_n == 1) /* check() called exactly once */                                           \
-  __CPROVER_ensures(IS_M(G.chk_arg, Ty, obs, self->stan, self->cil, BI(self), self->d0, P.sqrt_ret[1])) /* with m_T */ \
-  __CPROVER_ensures(NUM(G.chk_arg)) /* which is a number */                                                  \
-  __CPROVER_ensures(CHECKED(self))
-
+  __CPROVER_ensures(VALUES_ONLY(VIS_IS_M_##Ty)) /* with the positional misclosure m_T */                       \
+  __CPROVER_ensures(VALUES_ONLY(NUM(G.chk_arg))) /* which is a number */                                     \
+  __CPROVER_ensures(CHECKED(self))                                                                            \
+  __CPROVER_ensures(VIS_REC(Ty) && (__CPROVER_old(G.nsqrt) == 1 ==> MV_SAMEVAL(G.sqrt_arg[0], __CPROVER_old(G.sqrt_arg[0]))))
 /* the network as test_abs_term needs it: after revision and linearisation */
 #define NET_SHAPE(n)                                                                                        \
   (__CPROVER_rw_ok((n), sizeof(struct LocalNetwork)) && 1 <= (n)->pocmer_ && (n)->pocmer_ <= NMAX &&             \
@@ -305,17 +354,16 @@ void gvs_project_equations(struct LocalNetwork *self)
    !SAME((n), (n)->revised_obs_.data) && !SAME((n), (n)->b.mem.rep) && !SAME((n)->revised_obs_.data, (n)->b.mem.rep))
 #define OBS_K(n, k) ((n)->revised_obs_.data[(k) - 1])
 #define PT(n, id) (&(n)->PD.pts[id])
-#define PT_TO(n, o) ((o)->to_ == NOID ? &(n)->PD.empty_pt : PT(n, (o)->to_))
 /* the observation passed LocalRevision: ids present (std::map::find), xy present where the revision asks for it */
 #define REVISED(n, o)                                                                                       \
   (0 <= (o)->gv_type && (o)->gv_type < T_COUNT && 0 <= (o)->from_ && (o)->from_ < NPTS &&                        \
    (ONE_POINT((o)->gv_type) ? (o)->to_ == NOID : (0 <= (o)->to_ && (o)->to_ < NPTS && (o)->to_ != (o)->from_)) && \
    (USES_D0((o)->gv_type) ==> (PT(n, (o)->from_)->bxy_ && PT(n, (o)->to_)->bxy_)) &&                             \
-   COORDS_OK(PT(n, (o)->from_)) && COORDS_OK(PT_TO(n, o)) && FIN(VALUE(o), 1e12))
+   COORDS_OK(PT(n, (o)->from_)) && (ONE_POINT((o)->gv_type) ? COORDS_OK(&(n)->PD.empty_pt) : COORDS_OK(PT(n, (o)->to_))) && OBS_FIN(o))
 /* test_abs_term(indm) */
-#define TA_M OBS_K(self, indm)
+#define TA_M gv_m /* == revised_obs_[indm-1] (required); named through a ghost pointer: cbmc 6.11 crashes on data[i]->field in a requires clause */
 #define TA_F PT(self, TA_M->from_)
-#define TA_T PT_TO(self, TA_M)
+#define TA_T PT(self, TA_M->to_) /* used by the two-point types only */
 #define TA_B (self->b.mem.rep[indm - 1])
 /* remove_huge_abs_terms */
 #define RH_SHAPE(n)                                                                                         \
@@ -360,15 +408,14 @@ GV_CANARY("TAV_setIndex entry");
 __CPROVER_requires(__CPROVER_rw_ok(self, sizeof(struct TAV)) && __CPROVER_r_ok(from__p, sizeof(struct LocalPoint)) &&
                    __CPROVER_r_ok(to__p, sizeof(struct LocalPoint)) && !SAME(self, from__p) && !SAME(self, to__p))
 __CPROVER_requires(COORDS_OK(from__p) && COORDS_OK(to__p) && G.nsqrt == 0)
-__CPROVER_assigns(self->stan, self->cil, self->d0, G)
-__CPROVER_ensures(self->stan == from__p && self->cil == to__p)
+__CPROVER_assigns(self->stan, self->cil, self->d0, G_SQRT, G.d0_from, G.d0_to)
+__CPROVER_ensures(__CPROVER_pointer_equals(self->stan, from__p) && __CPROVER_pointer_equals(self->cil, to__p)) /* (pointer_equals: a replaced contract must GIVE the pointer its target, an == would leave it dangling in cbmc) */
 __CPROVER_ensures((from__p->bxy_ && to__p->bxy_) ==>
-                  (G.nsqrt == 1 && self->d0 == P.sqrt_ret[0] && HSQ_OF(0, from__p, to__p) && G.d0_from == from__p && G.d0_to == to__p &&
+                  (G.nsqrt == 1 && self->d0 == P.sqrt_ret[0] && VALUES_ONLY(HSQ_OF(0, from__p, to__p)) && G.d0_from == from__p && G.d0_to == to__p &&
                    0 <= self->d0 && self->d0 <= DMAX))
 __CPROVER_ensures(!(from__p->bxy_ && to__p->bxy_) ==>
                   (G.nsqrt == 0 && MV_SAMEVAL(self->d0, __CPROVER_old(self->d0)) && G.d0_from == __CPROVER_old(G.d0_from) &&
                    G.d0_to == __CPROVER_old(G.d0_to)))
-__CPROVER_ensures(G.chk_n == __CPROVER_old(G.chk_n) && G.b_raw == __CPROVER_old(G.b_raw))
 //@ entry TAV_setFromTo
 GV_CANARY("TAV_setFromTo entry");
 //@ at TAV_setFromTo fresh
@@ -394,102 +441,119 @@ G.chk_n++; G.chk_arg = value; /* ghost record */
 /* ---- visit(T*): check is called exactly once, with the positional misclosure of the type ---------------------- */
 //@ contract TAV_visit_Distance
 __CPROVER_requires(VIS_SHAPE2(self, obs) && D0_CUR(self))
-__CPROVER_assigns(self->val, G)
+__CPROVER_assigns(self->val, G_SQRT, G_CHK, G_VIS)
 VIS_POST(Distance)
 //@ entry TAV_visit_Distance
 GV_CANARY("TAV_visit_Distance entry");
+VIS_REC_STMT(Distance);
 //@ contract TAV_visit_Direction
 __CPROVER_requires(VIS_SHAPE2(self, obs) && D0_CUR(self))
-__CPROVER_assigns(self->val, G)
+__CPROVER_assigns(self->val, G_SQRT, G_CHK, G_VIS)
 VIS_POST(Direction)
 //@ entry TAV_visit_Direction
 GV_CANARY("TAV_visit_Direction entry");
+VIS_REC_STMT(Direction);
 //@ contract TAV_visit_Angle
 __CPROVER_requires(VIS_SHAPE2(self, obs) && D0_CUR(self) && 0 <= P.dfs && P.dfs <= DMAX && EXCL_ANGLE(self->d0))
-__CPROVER_assigns(self->val, G)
+__CPROVER_assigns(self->val, G_SQRT, G_CHK, G_VIS)
 VIS_POST(Angle)
 //@ entry TAV_visit_Angle
 GV_CANARY("TAV_visit_Angle entry");
+VIS_REC_STMT(Angle);
 //@ contract TAV_visit_H_Diff
 __CPROVER_requires(VIS_SHAPE2(self, obs))
-__CPROVER_assigns(self->val, G)
+__CPROVER_assigns(self->val, G_SQRT, G_CHK, G_VIS)
 VIS_POST(H_Diff)
 //@ entry TAV_visit_H_Diff
 GV_CANARY("TAV_visit_H_Diff entry");
+VIS_REC_STMT(H_Diff);
 //@ contract TAV_visit_S_Distance
 __CPROVER_requires(VIS_SHAPE2(self, obs) && D0_CUR(self) && G.nsqrt == 1)
-__CPROVER_assigns(self->val, G)
+__CPROVER_assigns(self->val, G_SQRT, G_CHK, G_VIS)
 VIS_POST(S_Distance)
 __CPROVER_ensures(G.nsqrt == 2 && SLOPE_OF(1, self->stan, self->cil, self->d0))
 //@ entry TAV_visit_S_Distance
 GV_CANARY("TAV_visit_S_Distance entry");
+VIS_REC_STMT(S_Distance);
 //@ contract TAV_visit_Z_Angle
 __CPROVER_requires(VIS_SHAPE2(self, obs) && D0_CUR(self) && G.nsqrt == 1)
-__CPROVER_assigns(self->val, G)
+__CPROVER_assigns(self->val, G_SQRT, G_CHK, G_VIS)
 VIS_POST(Z_Angle)
 __CPROVER_ensures(G.nsqrt == 2 && SLOPE_OF(1, self->stan, self->cil, self->d0))
 //@ entry TAV_visit_Z_Angle
 GV_CANARY("TAV_visit_Z_Angle entry");
+VIS_REC_STMT(Z_Angle);
 //@ contract TAV_visit_X
 __CPROVER_requires(VIS_SHAPE1(self, obs))
-__CPROVER_assigns(self->val, G)
+__CPROVER_assigns(self->val, G_SQRT, G_CHK, G_VIS)
 VIS_POST(X)
 //@ entry TAV_visit_X
 GV_CANARY("TAV_visit_X entry");
+VIS_REC_STMT(X);
 //@ contract TAV_visit_Y
 __CPROVER_requires(VIS_SHAPE1(self, obs))
-__CPROVER_assigns(self->val, G)
+__CPROVER_assigns(self->val, G_SQRT, G_CHK, G_VIS)
 VIS_POST(Y)
 //@ entry TAV_visit_Y
 GV_CANARY("TAV_visit_Y entry");
+VIS_REC_STMT(Y);
 //@ contract TAV_visit_Z
 __CPROVER_requires(VIS_SHAPE1(self, obs))
-__CPROVER_assigns(self->val, G)
+__CPROVER_assigns(self->val, G_SQRT, G_CHK, G_VIS)
 VIS_POST(Z)
 //@ entry TAV_visit_Z
 GV_CANARY("TAV_visit_Z entry");
+VIS_REC_STMT(Z);
 //@ contract TAV_visit_Xdiff
 __CPROVER_requires(VIS_SHAPE2(self, obs))
-__CPROVER_assigns(self->val, G)
+__CPROVER_assigns(self->val, G_SQRT, G_CHK, G_VIS)
 VIS_POST(Xdiff)
 //@ entry TAV_visit_Xdiff
 GV_CANARY("TAV_visit_Xdiff entry");
+VIS_REC_STMT(Xdiff);
 //@ contract TAV_visit_Ydiff
 __CPROVER_requires(VIS_SHAPE2(self, obs))
-__CPROVER_assigns(self->val, G)
+__CPROVER_assigns(self->val, G_SQRT, G_CHK, G_VIS)
 VIS_POST(Ydiff)
 //@ entry TAV_visit_Ydiff
 GV_CANARY("TAV_visit_Ydiff entry");
+VIS_REC_STMT(Ydiff);
 //@ contract TAV_visit_Zdiff
 __CPROVER_requires(VIS_SHAPE2(self, obs))
-__CPROVER_assigns(self->val, G)
+__CPROVER_assigns(self->val, G_SQRT, G_CHK, G_VIS)
 VIS_POST(Zdiff)
 //@ entry TAV_visit_Zdiff
 GV_CANARY("TAV_visit_Zdiff entry");
+VIS_REC_STMT(Zdiff);
 //@ contract TAV_visit_Azimuth
 __CPROVER_requires(VIS_SHAPE2(self, obs) && D0_CUR(self))
-__CPROVER_assigns(self->val, G)
+__CPROVER_assigns(self->val, G_SQRT, G_CHK, G_VIS)
 VIS_POST(Azimuth)
 //@ entry TAV_visit_Azimuth
 GV_CANARY("TAV_visit_Azimuth entry");
+VIS_REC_STMT(Azimuth);
 //@ end
 
 /* ---- test_abs_term(indm): the verdict for observation revised_obs_[indm-1], from / to of THAT observation ------- */
 //@ contract LocalNetwork_test_abs_term
 __CPROVER_requires(NET_SHAPE(self) && 1 <= indm && indm <= self->pocmer_)
-__CPROVER_requires(__CPROVER_r_ok(TA_M, sizeof(struct Observation)) && !SAME(TA_M, self) && REVISED(self, TA_M))
-__CPROVER_requires(FIN(TA_B, BMAX) && G.b_raw && G.nsqrt == 0 && G.chk_n == 0)
+__CPROVER_requires(OBS_K(self, indm) == TA_M && __CPROVER_r_ok(TA_M, sizeof(struct Observation)) && !SAME(TA_M, self) && REVISED(self, TA_M))
+__CPROVER_requires(FIN(TA_B, BMAX) && G.b_raw && G.nsqrt == 0 && G.chk_n == 0 && G.vis_n == 0)
 __CPROVER_requires(0 <= P.dfs && P.dfs <= DMAX && EXCL_ANGLE(P.sqrt_ret[0]))
-#ifdef GV_EXCL_NONZERO_TERM
-__CPROVER_requires(!(TA_B == 0 && BY_TYPE(TA_M->gv_type, TA_M_GT, self->tol_abs_)))
-#endif
 __CPROVER_assigns(G) /* nothing of the network */
-__CPROVER_ensures(G.chk_n == 1 && NUM(G.chk_arg))
-__CPROVER_ensures(BY_TYPE(TA_M->gv_type, TA_IS_M, G.chk_arg))
-__CPROVER_ensures(USES_D0(TA_M->gv_type) ==> (G.nsqrt >= 1 && HSQ_OF(0, TA_F, TA_T)))
-__CPROVER_ensures(USES_SLOPE(TA_M->gv_type) ==> (G.nsqrt == 2 && SLOPE_OF(1, TA_F, TA_T, P.sqrt_ret[0])))
-__CPROVER_ensures((__CPROVER_return_value != 0) == (G.chk_arg > self->tol_abs_)) /* flagged exactly when m > tol-abs */
+/* exactly one visit: the overload of the observation's dynamic type, applied to observation indm ... */
+__CPROVER_ensures(G.vis_n == 1 && G.chk_n == 1 && G.vis_obs == TA_M && G.vis_type == TA_M->gv_type)
+/* ... by a visitor whose stand point / target are from() / to() of THAT observation, whose index is indm, whose vector is
+   b and whose tolerance is tol-abs: with the contract of that visit, G.chk_arg IS the positional misclosure m_T of
+   observation indm */
+__CPROVER_ensures(G.vis_stan == TA_F && G.vis_cil == (ONE_POINT(TA_M->gv_type) ? &self->PD.empty_pt : TA_T))
+__CPROVER_ensures(G.vis_indm == indm && G.vis_b == &self->b && MV_SAMEVAL(G.vis_tol, self->tol_abs_))
+/* ... and whose d0 is the horizontal distance of exactly this pair (fresh visitor, setFromTo with both xy) */
+__CPROVER_ensures(USES_D0(TA_M->gv_type) ==> (G.d0_from == TA_F && G.d0_to == TA_T))
+/* the verdict: flagged (result != 0) exactly when m_T > tol-abs; the flagged value is b(indm) */
+__CPROVER_ensures(EXCL_ZERO(TA_B, G.chk_arg, self->tol_abs_) ==> ((__CPROVER_return_value != 0) == (G.chk_arg > self->tol_abs_)))
 __CPROVER_ensures(G.chk_arg > self->tol_abs_ ==> MV_SAMEVAL(__CPROVER_return_value, TA_B))
+__CPROVER_ensures(!(G.chk_arg > self->tol_abs_) ==> __CPROVER_return_value == 0)
 //@ entry LocalNetwork_test_abs_term
 GV_CANARY("LocalNetwork_test_abs_term entry");
 //@ end
@@ -515,15 +579,15 @@ __CPROVER_decreases((long)self->pocmer_ + 1 - r)
 /* ---- remove_huge_abs_terms: an observation is set passive exactly when test_abs_term flags it; nothing else ----- */
 //@ contract LocalNetwork_remove_huge_abs_terms
 __CPROVER_requires(RH_SHAPE(self) && G.tat_calls == 0 && !G.tat_any && G.pe_calls == 0)
-__CPROVER_requires(K0_OK(self) ==> (self->revised_obs_.data[gv_k0 - 1] == &OBJ0 && OBJ0.active_ == P.act0 && OBJ0_SNAP))
+__CPROVER_requires(K0_OK(self) ==> (self->revised_obs_.data[gv_k0 - 1] == &OBJ0 && (OBJ0.active_ != 0) == (P.act0 != 0) && OBJ0_SNAP))
 __CPROVER_assigns(self->vybocujici_abscl_, self->tst_redbod_, self->tst_redmer_, self->tst_rov_opr_, self->tst_vyrovnani_, G,
                   __CPROVER_object_whole(gv_objs))
 __CPROVER_ensures(G.pe_calls == 1)
 /* no gross term: nothing happens */
-__CPROVER_ensures(!P.pe_flag ==> (G.tat_calls == 0 && self->tst_redmer_ && self->tst_rov_opr_ && (K0_OK(self) ==> OBJ0.active_ == P.act0)))
+__CPROVER_ensures(!P.pe_flag ==> (G.tat_calls == 0 && self->tst_redmer_ && self->tst_rov_opr_ && (K0_OK(self) ==> (OBJ0.active_ != 0) == (P.act0 != 0))))
 /* otherwise every observation is tested once and is passive afterwards exactly when it was passive or is flagged */
 __CPROVER_ensures(P.pe_flag ==> G.tat_calls == self->pocmer_)
-__CPROVER_ensures((P.pe_flag && K0_OK(self)) ==> OBJ0.active_ == (P.act0 && !(P.tat_ret_k0 != 0)))
+__CPROVER_ensures((P.pe_flag && K0_OK(self)) ==> (OBJ0.active_ != 0) == ((P.act0 != 0) && !(P.tat_ret_k0 != 0)))
 /* ... the stages downstream of the observation list are invalidated, the point revision is kept */
 __CPROVER_ensures(P.pe_flag ==> (!self->tst_redmer_ && !self->tst_rov_opr_ && !self->tst_vyrovnani_))
 __CPROVER_ensures(self->tst_redbod_)
@@ -537,14 +601,12 @@ GV_CANARY("LocalNetwork_remove_huge_abs_terms entry");
 __CPROVER_assigns(m, r, G, __CPROVER_object_whole(gv_objs))
 __CPROVER_loop_invariant(0 <= r && r <= self->pocmer_ && SAME(m, self->revised_obs_.data) &&
                          OFF(m) == OFF(self->revised_obs_.data) + (long)r * (long)sizeof(struct Observation *) && G.tat_calls == r &&
-                         G.pe_calls == 1 &&
-                         (K0_OK(self) ==> (OBJ0.active_ == (gv_k0 <= r ? (P.act0 && !(P.tat_ret_k0 != 0)) : P.act0) &&
+                         G.pe_calls == 1 && G.b_raw == B_RAW_AFTER_PE &&
+                         (K0_OK(self) ==> ((OBJ0.active_ != 0) == (gv_k0 <= r ? ((P.act0 != 0) && !(P.tat_ret_k0 != 0)) : (P.act0 != 0)) &&
                                            OBJ0_SNAP)))
 __CPROVER_decreases(self->pocmer_ - r)
 //@ head LocalNetwork_remove_huge_abs_terms 1
 GV_ANCHOR(m, self->revised_obs_.data + r);
-/* the r-th entry of revised_obs_ is the r-th observation (distinct observations: revision_observations pushes each once) */
-GV_INST(0 <= r && r < self->revised_obs_.size, self->revised_obs_.data[r] == &gv_objs[r]);
 //@ end
 
 //@ harness
@@ -638,7 +700,8 @@ void h_test_abs_term(void)
   struct Observation o;
   gv_o = o;
   int indm;
-  if (1 <= indm && indm <= gv_net.pocmer_) gv_net.revised_obs_.data[indm - 1] = &gv_o;
+  gv_m = &gv_o;
+  if (1 <= indm && indm <= gv_net.pocmer_) gv_net.revised_obs_.data[indm - 1] = gv_m;
   double r = LocalNetwork_test_abs_term(&gv_net, indm);
   GV_CANARY("h_test_abs_term end");
 }
